@@ -11,6 +11,7 @@ LEAN_MODULES = ["B2Z.Props.C16"]
 THEOREMS = [
     "B2Z.Plink.C16_bed_roundtrip", "B2Z.Plink.C16_call_encoding", "B2Z.Plink.C16_mask_phased",
     "B2Z.Plink.buffer_run_spec", "B2Z.Plink.buffer_run_aligned", "B2Z.Plink.C16_convert_refines_spec",
+    "B2Z.Plink.C16_call_injective", "B2Z.Plink.C16_rows_injective", "B2Z.Plink.C16_encodeRow_bytes",
 ]
 ASSUMPTIONS = [
     "bed_reader decodes the .bed bit layout as modelled (count_A1=False: 0/1/2/-127) — validated on every run against an independent bit-level writer",
